@@ -42,6 +42,11 @@ type entryDesc struct {
 	fn, re string
 	ev     *entryEv
 	reason string // non-empty: not translated
+	// extended shape (EntryDescX)
+	atoiFirst bool  // `pid, err := strconv.Atoi(config.pid)`; `return nil` on error — before anything else
+	unguarded bool  // captures are taken as `matches[idx]` without the `> -1` guard
+	incFirst  bool  // an IncLogins call stands between the event literal and the write
+	send      *eval // the credential user id of the login handed to the correlator after the write
 }
 
 type entCtx struct {
@@ -289,13 +294,25 @@ func (c *entCtx) entry(fd *ast.FuncDecl) (d entryDesc) {
 	cfg := fd.Type.Params.List[0].Names[0].Name
 	env := map[string]eval{}
 	guarded, wrote, returned := false, false, false
-	var evName string
+	var evName, atoiErr string
+	atoiChecked := false
 	for _, st := range stripLogs(fd.Body.List) {
 		if returned {
 			fail("statement after the final return")
 		}
 		switch s := st.(type) {
 		case *ast.AssignStmt:
+			if len(s.Lhs) == 2 && len(s.Rhs) == 1 && exprText(s.Rhs[0]) == "strconv.Atoi("+cfg+".pid)" {
+				if d.re != "" || evName != "" || d.atoiFirst {
+					fail("Atoi of the PID is not the first step")
+				}
+				if id, ok := s.Lhs[0].(*ast.Ident); ok {
+					env[id.Name] = eval{kind: "pidint"}
+					atoiErr = exprText(s.Lhs[1])
+					d.atoiFirst = true
+					continue
+				}
+			}
 			if len(s.Lhs) != 1 || len(s.Rhs) != 1 {
 				fail("unsupported assignment %s", exprText(s))
 			}
@@ -349,6 +366,12 @@ func (c *entCtx) entry(fd *ast.FuncDecl) (d entryDesc) {
 		case *ast.IfStmt:
 			cond := exprText(s.Cond)
 			switch {
+			case s.Init == nil && d.atoiFirst && !atoiChecked && cond == atoiErr+" != nil":
+				body := stripLogs(s.Body.List)
+				if len(body) != 1 || exprText(body[0]) != "return nil" || s.Else != nil {
+					fail("the bad-PID branch does more than return nil")
+				}
+				atoiChecked = true
 			case s.Init == nil && strings.HasSuffix(cond, " == nil") && env[strings.TrimSuffix(cond, " == nil")].kind == "matches":
 				body := stripLogs(s.Body.List)
 				if len(body) != 1 || exprText(body[0]) != "return nil" || s.Else != nil {
@@ -387,6 +410,64 @@ func (c *entCtx) entry(fd *ast.FuncDecl) (d entryDesc) {
 			default:
 				fail("unsupported condition %s", cond)
 			}
+		case *ast.ExprStmt:
+			// config.metrics.IncLogins(…) between the event literal and its write
+			if c2, ok := s.X.(*ast.CallExpr); ok && strings.HasSuffix(selName(c2.Fun), ".metrics.IncLogins") && evName != "" && !wrote && !d.incFirst {
+				d.incFirst = true
+				continue
+			}
+			fail("unsupported statement %s", exprText(st))
+		case *ast.SelectStmt:
+			// select { case <-config.ctx.Done(): return nil; case config.logins <- common.RemoteUserLogin{Source: evt, PID: pid, CredUserID: X}: return nil }
+			if !wrote || d.send != nil || len(s.Body.List) != 2 {
+				fail("unsupported select")
+			}
+			sawDone := false
+			for _, cl := range s.Body.List {
+				cc := cl.(*ast.CommClause)
+				if len(cc.Body) != 1 || exprText(cc.Body[0]) != "return nil" {
+					fail("a select arm does more than return nil")
+				}
+				switch cm := cc.Comm.(type) {
+				case *ast.ExprStmt:
+					if exprText(cm) != "<-"+cfg+".ctx.Done()" {
+						fail("unsupported receive in select")
+					}
+					sawDone = true
+				case *ast.SendStmt:
+					if exprText(cm.Chan) != cfg+".logins" {
+						fail("send on another channel")
+					}
+					cl2, ok := cm.Value.(*ast.CompositeLit)
+					if !ok || exprText(cl2.Type) != "common.RemoteUserLogin" || len(cl2.Elts) != 3 {
+						fail("unsupported login literal")
+					}
+					for _, el := range cl2.Elts {
+						kvx := el.(*ast.KeyValueExpr)
+						switch exprText(kvx.Key) {
+						case "Source":
+							if exprText(kvx.Value) != evName {
+								fail("the login's Source is not the event that was written")
+							}
+						case "PID":
+							if v := c.expr(env, cfg, kvx.Value); v.kind != "pidint" {
+								fail("the login's PID is not the parsed PID")
+							}
+						case "CredUserID":
+							v := c.expr(env, cfg, kvx.Value)
+							d.send = &v
+						default:
+							fail("unknown login field")
+						}
+					}
+				default:
+					fail("unsupported select arm")
+				}
+			}
+			if !sawDone || d.send == nil {
+				fail("select without both arms")
+			}
+			returned = true
 		case *ast.ReturnStmt:
 			if exprText(s) != "return nil" {
 				fail("unsupported return %s", exprText(s))
@@ -396,12 +477,14 @@ func (c *entCtx) entry(fd *ast.FuncDecl) (d entryDesc) {
 			fail("unsupported statement %s", exprText(st))
 		}
 	}
-	if d.re == "" || !guarded || !wrote || !returned || evName == "" {
+	if d.re == "" || !guarded || !wrote || !returned || evName == "" || (d.atoiFirst && !atoiChecked) {
 		fail("body does not have the shape match / guard / event / write / return")
 	}
 	d.ev = env[evName].ev
 	return d
 }
+
+var sawGuarded, sawUnguarded bool
 
 func leanVal(re string, v eval) string {
 	switch v.kind {
@@ -410,8 +493,10 @@ func leanVal(re string, v eval) string {
 			fail("capture of another expression")
 		}
 		if strings.HasSuffix(v.b, "!") {
-			fail("unguarded capture")
+			sawUnguarded = true
+			return ".cap " + leanStr(strings.TrimSuffix(v.b, "!"))
 		}
+		sawGuarded = true
 		return ".cap " + leanStr(v.b)
 	case "lit":
 		return ".lit " + leanStr(v.a)
@@ -477,8 +562,9 @@ func genEntries(fnNames []string) map[string]string {
 	b.WriteString("-- GENERATED by tools/extract from processors/sshd/*_type.go, sshdprocessor.go (entry function bodies); do not edit\nnamespace AM.Gen\n\n")
 	b.WriteString("/-- where a field of the event comes from -/\ninductive EVal where\n  | cap (group : String)   -- `matches[RE.SubexpIndex(group)]` under `if idx > -1` (\"\" when the group is absent)\n  | lit (s : String) | pid | node | mid\n  deriving DecidableEq, Repr\n\n")
 	b.WriteString("/-- an entry function of the shape: match with `re`, return nil without a match, build one event, write it -/\nstructure EntryDesc where\n  re : String\n  typ : String\n  outcome : String\n  component : String\n  srcType : EVal\n  srcValue : EVal\n  srcExtra : List (String × EVal)\n  subjects : List (String × EVal)\n  target : List (String × EVal)\n  metaExtra : List (String × EVal)\n  loggedAt : Bool\n  deriving DecidableEq, Repr\n\n")
+	b.WriteString("/-- the same shape with a parsed PID first, unguarded captures, a counter before the write, a hand-off after it -/\nstructure EntryDescX where\n  base : EntryDesc\n  atoiFirst : Bool\n  unguarded : Bool\n  incFirst : Bool\n  send : Option EVal\n  deriving DecidableEq, Repr\n\n")
 	sort.Strings(fnNames)
-	var table, untr []string
+	var table, tableX, untr []string
 	for _, fn := range fnNames {
 		fd, ok := all[fn]
 		if !ok {
@@ -499,10 +585,14 @@ func genEntries(fnNames []string) map[string]string {
 					}
 				}()
 				ev := d.ev
+				sawGuarded, sawUnguarded = false, false
 				text = fmt.Sprintf("{ re := %s, typ := %s, outcome := %s, component := %s,\n    srcType := %s, srcValue := %s, srcExtra := %s,\n    subjects := %s,\n    target := %s,\n    metaExtra := %s, loggedAt := %v }",
 					leanStr(d.re), leanStr(ev.action), leanStr(ev.outcome), leanStr(ev.component), leanVal(d.re, ev.srcType), leanVal(d.re, ev.srcValue),
 					leanKVs(d.re, ev.srcExtra), leanKVs(d.re, ev.subjects), leanKVs(d.re, ev.target), leanKVs(d.re, ev.metaExtra), ev.loggedAt)
 			}()
+		}
+		if d.reason == "" && sawGuarded && sawUnguarded {
+			d.reason = "guarded and unguarded captures mixed"
 		}
 		if d.reason != "" {
 			untr = append(untr, "("+leanStr(fn)+", "+leanStr(d.reason)+")")
@@ -510,10 +600,29 @@ func genEntries(fnNames []string) map[string]string {
 			continue
 		}
 		fmt.Fprintf(&b, "def entry_%s : EntryDesc :=\n  %s\n\n", fn, text)
+		if d.atoiFirst || sawUnguarded || d.incFirst || d.send != nil {
+			sendTxt := "none"
+			if d.send != nil {
+				func() {
+					defer func() {
+						if r := recover(); r != nil {
+							sendTxt = "none"
+						}
+					}()
+					sendTxt = "some (" + leanVal(d.re, *d.send) + ")"
+				}()
+			}
+			fmt.Fprintf(&b, "/-- … with: the PID parsed first (`return nil` if it is not a number): %v; captures taken without the `> -1` guard: %v; an `IncLogins` call between the event and its write: %v; the login handed over after the write (credential user id) -/\ndef entryX_%s : EntryDescX :=\n  { base := entry_%s, atoiFirst := %v, unguarded := %v, incFirst := %v, send := %s }\n\n",
+				d.atoiFirst, sawUnguarded, d.incFirst, fn, fn, d.atoiFirst, sawUnguarded, d.incFirst, sendTxt)
+			tableX = append(tableX, "("+leanStr(fn)+", entryX_"+fn+")")
+			res[fn] = "translated (extended shape)"
+			continue
+		}
 		table = append(table, "("+leanStr(fn)+", entry_"+fn+")")
 		res[fn] = "translated"
 	}
 	b.WriteString("def entries : List (String × EntryDesc) :=\n  [" + strings.Join(table, ",\n   ") + "]\n\n")
+	b.WriteString("def entriesX : List (String × EntryDescX) :=\n  [" + strings.Join(tableX, ",\n   ") + "]\n\n")
 	b.WriteString("/-- entry functions whose body is outside the translated shape (tied by source lock and correspondence only) -/\ndef untranslatedEntries : List (String × String) :=\n  [" + strings.Join(untr, ",\n   ") + "]\n\nend AM.Gen\n")
 	write("Entries.lean", b.String())
 	return res
